@@ -50,16 +50,20 @@ TRUSTED = ["XSalsa20-Poly1305 (NaCl SecretBox): an interface in Lean whose ideal
            "transit handshake (C07) is run for real by the harness but not modelled here; the model starts at "
            "_negotiationSuccessful (bytes riding behind the handshake are the first chunk: leftover_is_first_chunk)",
            "application callbacks (read callbacks, consumer-Deferred callbacks) re-enter the connection only through "
-           "receive_record / connectConsumer / writeToFile / disconnectConsumer / close, as finite scripts; errbacks, "
-           "consumer.write / registerProducer / unregisterProducer and progress/hasher hooks are passive (they do not "
-           "call back into the connection)"]
+           "receive_record / connectConsumer / writeToFile / disconnectConsumer / close / pauseProducing / resumeProducing, "
+           "as finite scripts; a consumer's write() may call producer.pauseProducing() (flow-controlled consumer); errbacks, "
+           "registerProducer / unregisterProducer and progress/hasher hooks are passive (they do not call back into the "
+           "connection); the application does not cancel() a receive_record() Deferred (outside the property's quantifier, "
+           "see agents/C06_integration_round7.md)"]
 RULE = ("two real Connections (TransitSender/TransitReceiver owners, real handshake, real NaCl); record lists with sizes "
         "{0,1,15,16,65535,65536,70000}+random, counts <= 12; chunkings all/1-byte/frame-aligned/random/explicit; every "
         "manipulation class (bit flip in length/nonce/MAC/body, delete, duplicate, swap, replay-at-end, truncate, inject "
         "bytes/garbage frame/empty frame/short frame, reflect, cross-direction, key-holder wrong nonce, huge length), both "
         "directions, read / chained-read / pipelined reads / consumer / writeToFile modes, random trees of re-entrant "
         "callbacks (reads issued from read callbacks, consumers attached mid-stream over queued records and outstanding "
-        "reads, detached, re-attached from their own Deferred's callback, close() from callbacks), connectionLost and "
+        "reads, detached, re-attached from their own Deferred's callback, close() from callbacks, pauseProducing / "
+        "resumeProducing from callbacks and at top level, consumers that pause their producer in write() - combined with "
+        "every manipulation class and coalesced segments), connectionLost and "
         "close at arbitrary points, the loss reported as FIN / reset / without argument, the stream cut at every byte position "
         "with consumers and reads outstanding; the order in which records leave the connection is observed by instrumenting the "
         "inbound queue in-process; "
@@ -114,10 +118,10 @@ class Pipe:
         pass
 
     def pauseProducing(self):
-        pass
+        self.side.ev.append("pause")
 
     def resumeProducing(self):
-        pass
+        self.side.ev.append("resume")
 
     def stopProducing(self):
         pass
@@ -136,12 +140,18 @@ class _Factory:
 
 @implementer(IConsumer)
 class LogConsumer:
-    def __init__(self, side):
+    """`fc`: a flow-controlled consumer (IPushProducer contract): it asks its producer to pause from inside every
+    write(); somebody resumes the producer on a later turn"""
+
+    def __init__(self, side, fc=False):
         self.side = side
         self.data = []
+        self.fc = fc
+        self.producer = None
 
     def registerProducer(self, producer, streaming):
         assert streaming
+        self.producer = producer
         self.side.ev.append("reg")
 
     def unregisterProducer(self):
@@ -151,6 +161,8 @@ class LogConsumer:
         self.data.append(bytes(b))
         self.side.ev.append("w=" + hx(bytes(b)))
         self.side.note_write(bytes(b))
+        if self.fc:
+            self.producer.pauseProducing()
 
 
 class LogFile:
@@ -279,6 +291,10 @@ class Side:
         elif k == "x":
             self.closed = True
             self.conn.close()
+        elif k == "p":
+            self.conn.pauseProducing()
+        elif k == "u":
+            self.conn.resumeProducing()
         else:
             raise ValueError(a)
 
@@ -312,7 +328,7 @@ class Side:
                 transit.FileConsumer = orig
             obj = f
         else:
-            obj = LogConsumer(self)
+            obj = LogConsumer(self, fc=(mode == "fc"))
             d = self.conn.connectConsumer(obj, expected)
         rec = dict(obj=obj, d=d, expected=expected, holder=holder, mode=mode, after_lost=getattr(self, "lost_at_id", None) is not None)
         self.consumers.append(rec)
@@ -496,10 +512,8 @@ def encode_script(acts):
     toks = []
 
     def go(a):
-        if a[0] == "d":
-            toks.append("d")
-        elif a[0] == "x":
-            toks.append("x")
+        if a[0] in ("d", "x", "p", "u"):
+            toks.append(a[0])
         elif a[0] == "r":
             for k in a[1]:
                 go(k)
@@ -507,7 +521,7 @@ def encode_script(acts):
         elif a[0] == "c":
             for k in a[3]:
                 go(k)
-            toks.append(f"c{'n' if a[1] is None else a[1]}:{len(a[3])}")
+            toks.append(f"{'f' if a[2] == 'fc' else 'c'}{'n' if a[1] is None else a[1]}:{len(a[3])}")
         else:
             raise ValueError(a)
     for a in acts:
@@ -518,7 +532,8 @@ def encode_script(acts):
 def script_tags(acts, depth=0, out=None):
     out = [] if out is None else out
     for a in acts:
-        out.append(("cb:" if depth else "top:") + {"r": "read", "c": "consume", "d": "detach", "x": "close"}[a[0]])
+        out.append(("cb:" if depth else "top:") + {"r": "read", "c": "consume", "d": "detach", "x": "close", "p": "pause", "u": "resume"}[a[0]]
+                   + ("-fc" if a[0] == "c" and a[2] == "fc" else ""))
         kids = a[1] if a[0] == "r" else a[3] if a[0] == "c" else []
         script_tags(kids, depth + 1, out)
     return out
@@ -815,14 +830,14 @@ def rand_script(rng, depth=0, budget=None):
         if budget[0] <= 0:
             break
         budget[0] -= 1
-        k = rng.choice(["r", "r", "r", "r", "c", "c", "d", "x"] if depth < 4 else ["r", "d"])
+        k = rng.choice(["r", "r", "r", "r", "c", "c", "d", "x", "p", "u"] if depth < 4 else ["r", "d", "p", "u"])
         if k == "x" and rng.random() < 0.6:
             k = "r"
         if k == "r":
             acts.append(["r", rand_script(rng, depth + 1, budget)])
         elif k == "c":
             ex = rng.choice([None, 0, 0, 1, 3, 16, 17, 40, 56, 100, rng.randrange(0, 200)])
-            acts.append(["c", ex, rng.choice(["file", "consumer"]), rand_script(rng, depth + 1, budget)])
+            acts.append(["c", ex, rng.choice(["file", "consumer", "fc"]), rand_script(rng, depth + 1, budget)])
         else:
             acts.append([k])
     return acts
@@ -831,7 +846,7 @@ def rand_script(rng, depth=0, budget=None):
 def rand_app(rng, nchunks):
     acts = []
     mode = rng.choice(["reads-first", "reads-late", "chain", "consume", "file", "mixed", "none",
-                       "script", "script", "script", "pipelined"])
+                       "script", "script", "script", "pipelined", "flow", "flow"])
     pos = lambda: rng.choice([-1, -1, "end"] + list(range(max(nchunks, 1))))  # noqa: E731
     if mode == "reads-first":
         for _ in range(rng.randrange(1, 15)):
@@ -857,6 +872,18 @@ def rand_app(rng, nchunks):
         # attach / detach / re-attach / re-entrant reads from inside callbacks, at arbitrary points of the stream
         for _ in range(rng.randrange(1, 5)):
             acts.append([pos(), ["call", rand_script(rng)]])
+    elif mode == "flow":
+        # back-pressure: a consumer that pauses in every write(), or a read callback that pauses the connection;
+        # somebody resumes later (possibly never)
+        if rng.random() < 0.5:
+            acts.append([-1, ["call", [["c", rng.choice([None, None, 5, 40, 200]), "fc", [chain(rng.randrange(0, 2))]]]]])
+        else:
+            acts.append([-1, ["call", [["r", [["p"], chain(rng.randrange(0, 3))]]]]])
+            if rng.random() < 0.4:
+                acts.append([-1, ["call", [chain(0)]]])
+        for _ in range(rng.randrange(0, 3)):
+            acts.append([pos(), ["call", [["u"]] + ([chain(0)] if rng.random() < 0.3 else [])]])
+        acts.append(["end", ["call", [["u"]]]])
     elif mode == "pipelined":
         # several reads outstanding at once, each of whose callbacks reads again (and maybe twice)
         for _ in range(rng.randrange(2, 5)):
@@ -972,6 +999,22 @@ def corpus():
                     app=[["end", ["consume", 5, "file"]], ["end", ["read", 3]]]))
     out.append(dict(kind="stream", dir="S", recs=three, chunk="aligned", manip=["delete", 2],
                     app=[[-1, ["consume", 100, "file"]]]))
+    # back-pressure x tampering, frames coalesced into one segment (the manipulated frame is in hand when the pause happens)
+    seven = [[3, i] for i in range(7)]
+    FC = lambda ex, kids: ["c", ex, "fc", kids]    # noqa: E731
+    flows = [
+        [[-1, ["call", [FC(None, [])]]], ["end", ["call", [["u"]]]]],
+        [[-1, ["call", [FC(12, [["r", []]])]]], ["end", ["call", [["u"]]]]],
+        [[-1, ["call", [["r", [["p"], ["r", []]]]]]], ["end", ["call", [["u"], ["r", []], ["r", []]]]]],
+        [[-1, ["call", [["r", [["p"]]]]]], [-1, ["call", [["r", [["r", []]]]]]], ["end", ["call", [["u"]]]], ["end", ["call", [["r", []]]]]],
+        [[-1, ["call", [["p"]]]], [-1, ["call", [["r", []]]]], ["end", ["call", [["u"], ["u"]]]]],
+    ]
+    for app in flows:
+        for m in (None, ["flip", 3, 50, 2], ["flip", 1, 10, 0], ["delete", 2], ["dup", 0], ["swap", 3], ["insframe", 1, ""],
+                  ["trunc", 100]):
+            for ch in ("all", "rand"):
+                out.append(dict(kind="stream", dir="S" if m is None or m[1] % 2 else "R", recs=seven, chunk=ch, mseed=7,
+                                manip=m, app=app))
     # re-entrancy and attachment mid-stream (witnesses of `delivery_exact`)
     five = [[5, 1], [0, 2], [17, 3], [3, 4], [40, 5]]
     R = lambda kids: ["r", kids]          # noqa: E731
